@@ -84,6 +84,7 @@ func (c *appendCombineChecker) matchAppend(stmt ast.Stmt, slice ast.Expr) *ast.C
 		cond := ok &&
 			qualifiedName(call.Fun) == "append" &&
 			call.Ellipsis == token.NoPos &&
+			len(call.Args) != 0 &&
 			astequal.Expr(assign.Lhs[0], call.Args[0])
 		if !cond {
 			return nil
